@@ -138,6 +138,24 @@ where
     move |i| name_char_except1_priv(i, except)
 }
 
+pub fn name_char_except0<T, E: ParseError<T>>(except: &str) -> impl Fn(T) -> IResult<T, T, E> + '_
+where
+    T: InputTakeAtPosition,
+    <T as InputTakeAtPosition>::Item: AsChar,
+{
+    move |i| name_char_except0_priv(i, except)
+}
+
+pub fn name_start_char_except1<T, E: ParseError<T>>(
+    except: &str,
+) -> impl Fn(T) -> IResult<T, T, E> + '_
+where
+    T: InputTakeAtPosition,
+    <T as InputTakeAtPosition>::Item: AsChar,
+{
+    move |i| name_start_char_except1_priv(i, except)
+}
+
 pub fn pubid_char_except0<T, E: ParseError<T>>(except: &str) -> impl Fn(T) -> IResult<T, T, E> + '_
 where
     T: InputTakeAtPosition,
@@ -172,6 +190,10 @@ fn is_name_char_except(value: char, excepts: &str) -> bool {
     is_name_char(value) && !excepts.contains(value)
 }
 
+fn is_name_start_char_except(value: char, excepts: &str) -> bool {
+    is_name_start_char(value) && !excepts.contains(value)
+}
+
 fn is_pubid_char_except(value: char, excepts: &str) -> bool {
     is_pubid_char(value) && !excepts.contains(value)
 }
@@ -183,6 +205,25 @@ where
 {
     input.split_at_position1_complete(
         |i| !is_name_char_except(i.as_char(), except),
+        ErrorKind::Fail,
+    )
+}
+
+fn name_char_except0_priv<T, E: ParseError<T>>(input: T, except: &str) -> IResult<T, T, E>
+where
+    T: InputTakeAtPosition,
+    <T as InputTakeAtPosition>::Item: AsChar,
+{
+    input.split_at_position_complete(|i| !is_name_char_except(i.as_char(), except))
+}
+
+fn name_start_char_except1_priv<T, E: ParseError<T>>(input: T, except: &str) -> IResult<T, T, E>
+where
+    T: InputTakeAtPosition,
+    <T as InputTakeAtPosition>::Item: AsChar,
+{
+    input.split_at_position1_complete(
+        |i| !is_name_start_char_except(i.as_char(), except),
         ErrorKind::Fail,
     )
 }
